@@ -23,7 +23,7 @@ with open(os.path.join(VERIF, 'seeded', 'README.md'), 'w') as o:
             'Each directory holds `patch.diff` (against the /repo HEAD the checks pass on), `demo.py` (exits 0 on the unchanged code,\n'
             '1 with the change; run as `cd <worktree> && /venv/bin/python demo.py`), `notes.md` and `meta.json` (what was run and observed:\n'
             'demo exit codes, repository suite result with the change, every check run against the patched scratch worktree with its exit\n'
-            'code and signatures).  Verified with `tools/seed_verify.py`; none of these changes was ever applied to /repo itself.\n\n'
+            'code and signatures).  Verified with `tools/seed_verify.py`; none of these changes was ever applied to /repo itself.  `briefs/` holds the task descriptions the seeding agents received (TASK.md ... TASK6.md, one per wave; TASKB.md for the behaviour-preserving changes under /verif/benign). A change whose `meta.json` carries `open: true` is not caught by any check; the reason is given in its `first_run` field and in DESIGN.md section 16.\n\n'
             '| seed | property | confirmed (demo 0/1, suite 81) | suite passed/failed | caught by | first signature | what it is / needs |\n'
             '|---|---|---|---|---|---|---|\n')
     for r in rows:
